@@ -31,6 +31,9 @@ TRUSTED = ['translator harness/regen_gui.py (AST-free: imports the module and re
 ASSUMPTIONS = ['supported lattice families of DESIGN.md section 4; menu = _gui.codes/_gui.decoders + main.js (sizes 1..12, coprime L+1)']
 
 
+PROPERTY_MODULES = ['PanqecVerif.Properties.C20', 'PanqecVerif.Properties.C20Repr']
+
+
 def regen(ctx):
     from harness.regen_gui import regen_gui
     return regen_gui()
@@ -80,6 +83,36 @@ def menu_requests(ctx, deep=False):
             for dn in ['None'] + list(klass.deformation_names):
                 for rot in (False, True):
                     reqs.append((name, cls, s, dn, rot))
+    return reqs
+
+
+def offmenu_requests(ctx):
+    """sizes the menu cannot send (pairwise different sides) but the route accepts: they separate Lx / Ly / Lz in
+    the per-class arithmetic of the descriptions (e.g. `y == 2*Ly-1` against `z == 2*Lz-1`)"""
+    import itertools
+    import panqec.gui._gui as G
+    rng = ctx.np_rng(203)
+    reqs = []
+    for name, klass in G.codes.items():
+        cls = klass.__name__
+        if klass.dimension == 2:
+            cand = [s for s in itertools.permutations(range(1, 7), 2) if K.supported(cls, s)]
+        else:
+            cand = [s for s in itertools.permutations(range(1, 6), 3) if K.supported(cls, s)]
+            cand += [s for s in itertools.permutations((2, 4, 6), 3) if K.supported(cls, s)]
+        lim = 260 if ctx.thorough else 130
+        ok = []
+        for s in cand:
+            try:
+                if K.qubit_count(cls, s) <= lim:
+                    ok.append(s)
+            except Exception:  # noqa
+                pass
+        k = 6 if ctx.thorough else 2
+        pick = [ok[i] for i in sorted(rng.choice(len(ok), min(k, len(ok)), replace=False))] if ok else []
+        for s in pick:
+            for rot in (False, True):
+                reqs.append((name, cls, s, 'None', rot))
     return reqs
 
 
@@ -222,11 +255,12 @@ def code_data_streams(ctx, c):
         return 'ERR' if out.startswith('ERR') else out
     s_desc = Stream('code-data-descriptions-vs-model', post=err_post)
     s_mat = Stream('code-data-H-logicals-order-vs-model', post=err_post)
-    for name, cls, size, dn, rot in menu_requests(ctx):
+    menu = menu_requests(ctx)
+    for name, cls, size, dn, rot in menu + offmenu_requests(ctx):
         data, status = post(c, '/code-data', payload(name, size, dn, rot))
         pre = f"guidata {cls} {'x'.join(map(str, size))} {esc(dn)} {int(rot)}"
         inp = {'code_name': name, 'class': cls, 'size': list(size), 'deformation': dn, 'rotated': rot}
-        tag = f"{cls}{'/rotated' if rot else '/kitaev'}"
+        tag = f"{cls}{'/rotated' if rot else '/kitaev'}" + ('' if (name, cls, size, dn, rot) in menu else '/off-menu-size')
         if data is None:
             s_desc.add(pre + ' qubits', 'ERR', dict(inp, what=f'HTTP {status}'), tag=tag)
             continue
